@@ -8,8 +8,10 @@ import (
 	"fmt"
 	"net/http"
 	"net/http/httptest"
+	"net/url"
 	"runtime"
 	"strings"
+	"sync"
 	"sync/atomic"
 	"time"
 
@@ -25,6 +27,7 @@ type Fataler interface {
 // Effect is a counting side effect.
 type Effect struct {
 	N    atomic.Int64
+	Bad  atomic.Value  // string: a delivered webhook did not carry what was configured
 	Hold chan struct{} // non-nil: every execution blocks until the channel is closed (a hung webhook)
 }
 
@@ -34,6 +37,47 @@ func (e *Effect) Exec() error {
 		<-e.Hold
 	}
 	return nil
+}
+
+// UseWebhooks makes drivers built afterwards use the breaker's stock webhook side effect
+// (cbreaker.NewWebhookSideEffect) against a loopback server of the harness instead of an
+// in-process effect: one delivered call per transition, carrying what was configured.
+var UseWebhooks bool
+
+var (
+	hookOnce    sync.Once
+	hookAddr    string
+	hookErr     error
+	hookTargets sync.Map // path -> *Effect
+	hookSeq     atomic.Int64
+)
+
+func hookServer() (string, error) {
+	hookOnce.Do(func() {
+		l, err := sim.Listen()
+		if err != nil {
+			hookErr = err
+			return
+		}
+		hookAddr = l.Addr().String()
+		go func() {
+			_ = http.Serve(l, http.HandlerFunc(func(w http.ResponseWriter, r *http.Request) {
+				v, ok := hookTargets.Load(r.URL.Path)
+				if !ok {
+					w.WriteHeader(http.StatusGone)
+					return
+				}
+				e := v.(*Effect)
+				_ = r.ParseForm()
+				if r.Method != http.MethodPost || strings.Join(r.Header.Values("X-Hook-Token"), ",") != "t1,t2" || r.PostForm.Get("event") != "transition" {
+					e.Bad.Store(fmt.Sprintf("webhook arrived as %s with X-Hook-Token %q and form %v; configured: POST, [t1 t2], event=transition", r.Method, r.Header.Values("X-Hook-Token"), r.PostForm))
+				}
+				e.N.Add(1)
+				_, _ = w.Write([]byte("ok"))
+			}))
+		}()
+	})
+	return hookAddr, hookErr
 }
 
 // BlockEffects makes the side effects of drivers built afterwards hang until the driver is
@@ -82,7 +126,8 @@ type Driver struct {
 	F, R, P   time.Duration
 	// NextCtx, when set, is the context of the next request only ("cancelled": the client has
 	// already gone away; "expired": an outer deadline has already passed).
-	NextCtx string
+	NextCtx   string
+	hookPaths []string
 }
 
 type Flight struct {
@@ -102,8 +147,27 @@ func New(t Fataler, expr string, f, r, p time.Duration, phase time.Duration) *Dr
 		w.Header().Set("X-Fallback", "1")
 		w.WriteHeader(http.StatusServiceUnavailable)
 	})
+	var onTripped, onStandby cbreaker.SideEffect = d.OnTripped, d.OnStandby
+	if UseWebhooks && !BlockEffects {
+		addr, err := hookServer()
+		if err != nil {
+			t.Fatalf("%v", err)
+		}
+		mk := func(e *Effect, what string) cbreaker.SideEffect {
+			path := fmt.Sprintf("/%d/%s", hookSeq.Add(1), what)
+			hookTargets.Store(path, e)
+			d.hookPaths = append(d.hookPaths, path)
+			we, err := cbreaker.NewWebhookSideEffect(cbreaker.Webhook{URL: "http://" + addr + path, Method: http.MethodPost,
+				Headers: http.Header{"X-Hook-Token": {"t1", "t2"}}, Form: url.Values{"event": {"transition"}}})
+			if err != nil {
+				t.Fatalf("NewWebhookSideEffect: %v", err)
+			}
+			return we
+		}
+		onTripped, onStandby = mk(d.OnTripped, "tripped"), mk(d.OnStandby, "standby")
+	}
 	opts := []cbreaker.Option{cbreaker.FallbackDuration(f), cbreaker.RecoveryDuration(r), cbreaker.CheckPeriod(p),
-		cbreaker.OnTripped(d.OnTripped), cbreaker.OnStandby(d.OnStandby), cbreaker.Fallback(fb)}
+		cbreaker.OnTripped(onTripped), cbreaker.OnStandby(onStandby), cbreaker.Fallback(fb)}
 	if UseFormatLogger {
 		opts = append(opts, cbreaker.Logger(&FormatLogger{}), cbreaker.Verbose(true))
 	}
@@ -122,6 +186,14 @@ func (d *Driver) Close() {
 	if d.OnTripped.Hold != nil {
 		close(d.OnTripped.Hold)
 		close(d.OnStandby.Hold)
+	}
+	for _, p := range d.hookPaths {
+		hookTargets.Delete(p)
+	}
+	for _, e := range []*Effect{d.OnTripped, d.OnStandby} {
+		if m := e.Bad.Load(); m != nil {
+			d.T.Fatalf("%s\n%s", m, d.History())
+		}
 	}
 	clock.Unfreeze()
 }
